@@ -249,3 +249,10 @@ func SortCands(cs []ice.Candidate) {
 		return cs[i].Type() < cs[j].Type()
 	})
 }
+
+// Busy returns how many application callbacks of this agent are executing right now.
+func (a *AgentH) Busy() int {
+	a.mu.Lock()
+	defer a.mu.Unlock()
+	return a.inState + a.inCand + a.inPair
+}
